@@ -17,6 +17,9 @@ static int err_vprintf(output_stream_t *os, const char *fmt, va_list ap) { (void
 void h_unber_stream(void) {
 	VF_BYTES(data, VF_UNBER_N); VF_SCALAR(size_t, size); VF_SCALAR(int, pretty); VF_SCALAR(int, single); VF_SCALAR(int, minimal);
 	__CPROVER_assume(size <= VF_UNBER_N);
+#ifdef VF_PRETTY
+	pretty = VF_PRETTY; single = 1; minimal = 0;
+#endif
 	struct in_mem in; in.base.nextChar = mem_next; in.base.bytesRead = mem_read; in.data = data; in.size = size; in.pos = 0;
 	output_stream_t os; os.vprintf = out_vprintf; os.vprintfError = err_vprintf;
 	set_pretty_printing(pretty ? 1 : 0); set_single_type_decoding(single ? 1 : 0); set_minimalistic_output(minimal ? 1 : 0);
